@@ -127,7 +127,7 @@ def main():
             if a.tests:
                 t = sh(f"cd {wt} && PYTHONPATH={wt} /venv/bin/python -m pytest -q -x -p no:cacheprovider --timeout=900 2>&1 | tail -1")
                 entry["repo_tests"] = t.stdout.strip()
-            env = dict(os.environ, VERIF_REPO_ROOT=wt, VERIF_EVIDENCE_DIR=os.path.join(SCR, "ev_" + name), VERIF_OUT_DIR=os.path.join(SCR, "out_" + name), VERIF_MAX_ROUNDS="1", VERIF_MIN_BUDGET="40")
+            env = dict(os.environ, VERIF_REPO_ROOT=wt, VERIF_EVIDENCE_DIR=os.path.join(SCR, "ev_" + name), VERIF_OUT_DIR=os.path.join(SCR, "out_" + name), VERIF_MAX_ROUNDS="1", VERIF_MIN_BUDGET="10", VERIF_TIMEOUT_SCALE="0.25")
             for c in (allc if a.all_checks else (checks or ["C19"])):
                 t0 = time.time()
                 p = subprocess.run([os.path.join(ROOT, "check"), c, "--tier", a.tier], env=env, capture_output=True, text=True)
